@@ -208,7 +208,7 @@ def check(ctx):
             for mb, mt in Ms:
                 mname = cname(mt).rsplit('::', 1)[1]
                 in_ok = re_.ok_dominates(mb)
-                in_err = any(body.edge_dominates(e, mb) for e in re_.err)
+                in_err = re_.err_dominates(mb)
                 region = 'ok' if in_ok else 'err' if in_err else None
                 k2 = '%s->%s@%s' % (key, mname, region)
                 if region is None:
@@ -279,7 +279,7 @@ def check(ctx):
                 ctx.bad('C02.O3', key + '|readd', site(body, wt['cs']),
                         'no add_raw_tombstones on the failure path: tombstones storage still holds are forgotten by the set')
             for rb, rt in readd:
-                in_err = any(body.edge_dominates(e, rb) for e in re_.err)
+                in_err = re_.err_dominates(rb)
                 good = False
                 why = ''
                 if not in_err:
